@@ -62,6 +62,10 @@ func (m *simpleMidPool) Put(mid int32) {
 	if idx < len(m.intervals) && (m.intervals[idx].from < mid && m.intervals[idx].to >= mid) {
 		return
 	}
+	if idx > 0 && m.intervals[idx-1].from < mid && m.intervals[idx-1].to >= mid {
+		// already free
+		return
+	}
 
 	if idx == len(m.intervals) {
 		if m.intervals[idx-1].from < mid && m.intervals[idx-1].to >= mid {
